@@ -810,8 +810,9 @@ package gohlslib
 //@   ensures result0 != nil ==> fresh(result0)
 //@ end
 
+// (no bound is assumed for H264: mediacommon's extractor returns DTS > PTS on its catch-up paths, e.g. B-frames right
+// after an IDR; an earlier version of this file assumed DTS <= PTS here, which hid a clamped PTS offset)
 //@ func ext:h264.DTSExtractor.Extract
-//@   ensures result1 == nil ==> result0 <= pts
 //@ end
 
 //@ func ext:h265.DTSExtractor.Extract
@@ -857,7 +858,7 @@ package gohlslib
 //@   loop 1 invariant old(s.pendingParamsChange) ==> s.pendingParamsChange
 //@   loop 1 invariant calls("muxerSegmenter.fmp4WriteSample") == 0 && track.firstRandomAccessReceived == old(track.firstRandomAccessReceived)
 //@   loop 1 invariant forall(i, (0 <= i && i < len(au)) ==> len(au[i]) >= 1)
-//@   atcall muxerSegmenter.fmp4WriteSample arg4.dts <= pts && arg4.ntp == ntp && arg4.PTSOffset == int32(pts - arg4.dts)
+//@   atcall muxerSegmenter.fmp4WriteSample arg4.ntp == ntp && arg4.PTSOffset == int32(pts - arg4.dts)
 //@   atcall muxerSegmenter.fmp4WriteSample old(track.firstRandomAccessReceived) || arg2
 //@   loop 1 invariant forall(i, (0 <= i && i < len(au)) ==> (au[i] == old(au[i]) && au[i][0] == old(au[i][0])))
 //@   loop 1 invariant calls("bytes.Equal") == cntps(au, ri + 1)
@@ -2010,7 +2011,7 @@ package gohlslib
 
 //@ func muxerSegmentMPEGTS.writeH264
 //@   props C01 C18
-//@   requires track != nil && track.Track != nil && track.ClockRate > 0 && s.mpegtsWriter != nil && dts <= pts
+//@   requires track != nil && track.Track != nil && track.ClockRate > 0 && s.mpegtsWriter != nil
 //@   requires s.size <= s.segmentMaxSize && s.segmentMaxSize < 4611686018427387904
 //@   requires forall(i, (0 <= i && i < len(au)) ==> len(au[i]) < 1099511627776) && len(au) < 1048576
 //@   modifies s.size, s.endDTS
@@ -2098,7 +2099,7 @@ package gohlslib
 //@        (timestampToDuration(callarg("muxerSegmentMPEGTS.writeH264", 0, 3), track.ClockRate) - old(asM(track.stream.nextSegment).startDTS) >= s.segmentMinDuration
 //@         || old(s.pendingParamsChange) || exists(i, 0 <= i && i < len(au) && (mod(au[i][0], 32) == 7 || mod(au[i][0], 32) == 8)))
 //@   ensures calls("muxerSegmentMPEGTS.writeH264") == 1 ==> (callarg("muxerSegmentMPEGTS.writeH264", 0, 1) == track && callarg("muxerSegmentMPEGTS.writeH264", 0, 2) == pts
-//@        && callarg("muxerSegmentMPEGTS.writeH264", 0, 3) <= pts && callarg("muxerSegmentMPEGTS.writeH264", 0, 4) == au)
+//@        && callarg("muxerSegmentMPEGTS.writeH264", 0, 4) == au)
 //@   ensures result == nil ==> (calls("muxerSegmentMPEGTS.writeH264") == 1 || (!idrIn(au) && (!old(track.firstRandomAccessReceived) || !exists(i, 0 <= i && i < len(au) && mod(au[i][0], 32) == 1))))
 //@   reachable result == nil && calls("Muxer.rotateSegments") == 1 && calls("muxerSegmentMPEGTS.writeH264") == 1
 //@ end
